@@ -950,3 +950,20 @@ package vegeta
 //@     invariant -1 <= rangeindex && rangeindex < 3 && r == old(r) && live(r) && rsrc(r) == ref(r) && !trialOK
 //@     invariant rsrc(&buf) == ref(r) && rfrom(&buf) == start && rto(&buf) == consumed(r) && !live(&buf) && !rempty(&buf) && (teeof(&buf) == 0 || teeof(&buf) == ref(r)) && consumed(r) >= start
 //@     decreases 3 - rangeindex
+
+// ---------------------------------------------------------------------------------- C06
+// The redirect policy installed by Redirects(n): with NoFollow (-1) the last response is used as is,
+// otherwise the (n+1)-th redirect is refused with an error (a refused exchange has a non-empty error,
+// see hit), and up to n redirects are followed.
+//@ func Redirects$1$1
+//@   property C06
+//@   returns (err)
+//@   assume [sentinel-set] http.ErrUseLastResponse != nil
+//@   ensures [no-follow-uses-the-last-response] n == -1 ==> err == http.ErrUseLastResponse
+//@   ensures [limit-exceeded-is-an-error] n != -1 && n < len(via) ==> err != nil && err != http.ErrUseLastResponse
+//@   ensures [within-the-limit-follows] n != -1 && n >= len(via) ==> err == nil
+//@ func Redirects$1
+//@   property C06
+//@   requires [non-nil] a != nil
+//@   modifies a.redirects, a.client
+//@   ensures [policy-installed] a.redirects == n
